@@ -221,6 +221,7 @@ class CrashWorld(World):
         self._last_key = None
         self.gstmt = 0  # statements of the live store since the run began
         self.kill_at = None  # (global statement number, mode): really die there (selftest crashstub)
+        self.fault_next = False  # arm a failing commit for the next single-event operation
         self.diagnose = False  # diagnostic replay: compare the live view with the model after every op
         self.strict = True  # raise on the first failing crash point (C06); C18 turns this off
         self.evaluated = []
@@ -568,6 +569,15 @@ class CrashWorld(World):
         """Issue writes to the model, run the real call with crash points armed, mark returned."""
         m = self.model
         n_before = m.n
+        # commit-fault injection: only for single-event operations on stores that commit from Python
+        armed = self.fault_next and not bucket_level and not expect_reject and len(variants[ORDERS[0]]) == 1 and self.backend != "peewee"
+        self.fault_next = False
+        if armed:
+            for o in ORDERS:
+                for w in variants[o]:
+                    w.is_event = False  # a write whose call fails is not an acknowledged write
+            seams.COMMIT_FAULTS.arm(self.path, 1)
+            fired0 = seams.COMMIT_FAULTS.fired
         m.issue(variants, bucket_level)
         self.inflight = True
         t_issue = seams.CLOCK.peek()
@@ -575,6 +585,19 @@ class CrashWorld(World):
             out = self._call(call, *a, **k)
         finally:
             self.inflight = False
+            if armed:
+                seams.COMMIT_FAULTS.pending = 0
+        if armed and seams.COMMIT_FAULTS.fired > fired0 and out["exc"] is not None and "database is locked" in str(out["exc"]):
+            # the flush attempt failed and the call raised: its write stays in the open transaction, nothing
+            # was acknowledged, the store must carry on (and must not believe it has just flushed)
+            self.probes["fault_commit_failed"] += 1
+            m.returned(False, False)
+            pt = self.crash_point("return")
+            pt["t_issue"] = t_issue
+            pt["n_before"] = n_before
+            pt["bucket_level"] = False
+            pt["event_write"] = False
+            return {"ret": None, "exc": None, "fault": True, "point": pt}
         if expect_reject:
             if out["exc"] is None:
                 raise Abandon("an operation on a missing bucket was accepted (%s): its writes cannot be modelled" % self.cur_op, "C05")
@@ -733,9 +756,16 @@ class CrashWorld(World):
         if len(evs) > 1 and (by_ts[-2][1][0] == by_ts[-1][1][0] or by_end[-2][1][0] + by_end[-2][1][1] == by_end[-1][1][0] + by_end[-1][1][1]):
             return {"skipped": "newest ambiguous"}
         E = s["ev"]
-        w = [W("ev", b, tu, evs[tu], expect_tuple(E), None, True, new_uid=E["data"]["u"])]
+        nu = E["data"]["u"]
+        if nu != tu and any(nu in x for x in self.model.events.values()):
+            return {"skipped": "tag already used by another live event"}
+        if nu == tu:
+            self.probes["replace_last_same_event_again"] += 1
+        w = [W("ev", b, tu, evs[tu], expect_tuple(E), None, True, new_uid=nu)]
         if tu in self.model.ids:
-            self.model.ids[E["data"]["u"]] = self.model.ids[tu]
+            self.model.ids[nu] = self.model.ids[tu]
+        elif nu != tu:
+            self.model.ids.pop(nu, None)  # a tag used before (repeated heartbeat): its old id is history
         self.probes["replace_last_blind"] += 1
         return self._run(self._same(w), False, self.ds[b].replace_last, mk_event(E))
 
@@ -775,6 +805,10 @@ class CrashWorld(World):
             self.probes["fault_clock_backward"] += 1
         elif s["us"] >= 10_000_000:
             self.probes["clock_idle_over_10s"] += 1
+        return {"ret": None, "exc": None}
+
+    def mop_fault_commit(self, s):
+        self.fault_next = True
         return {"ret": None, "exc": None}
 
     def mop_slow(self, s):
